@@ -1,5 +1,5 @@
 (* C17 - the wrappers composed with the identity source. *)
-From Coq Require Import List Bool NArith Arith Lia.
+From Coq Require Import List Bool NArith ZArith Arith Lia.
 From PV Require Import Common.Cases C17.Model C17.Spec C17.ProofsData C17.ProofsBuf.
 Import ListNotations.
 Local Open Scope N_scope.
@@ -118,15 +118,15 @@ Qed.
 
 Lemma wrap_spec_cons len c o r t :
   wrap_spec len c ((o, r) :: t) <->
-  wrap_spec len c [(o, r)] /\ wrap_spec len (spec_cursor c [(o, r)]) t.
+  wrap_spec len c [(o, r)] /\ wrap_spec len (spec_cursor len c [(o, r)]) t.
 Proof.
-  destruct o as [d|n|n|p st|v|n cap]; destruct r as [k|d'|[|]| | | ]; cbn [wrap_spec spec_cursor]; tauto.
+  destruct o as [d|n|n|p st|z wh|v|n cap]; destruct r as [k|d'|[|]| | | ]; cbn [wrap_spec spec_cursor]; tauto.
 Qed.
 
-Lemma spec_cursor_cons c o r t :
-  spec_cursor c ((o, r) :: t) = spec_cursor (spec_cursor c [(o, r)]) t.
+Lemma spec_cursor_cons len c o r t :
+  spec_cursor len c ((o, r) :: t) = spec_cursor len (spec_cursor len c [(o, r)]) t.
 Proof.
-  destruct o as [d|n|n|p st|v|n cap]; destruct r as [k|d'|[|]| | | ]; reflexivity.
+  destruct o as [d|n|n|p st|z wh|v|n cap]; destruct r as [k|d'|[|]| | | ]; reflexivity.
 Qed.
 
 (* per-operation side condition threaded through a history *)
@@ -139,11 +139,11 @@ Fixpoint chain (P : wst -> op -> Prop) (k : kind) (ops : list op) (w : wst) : Pr
 Lemma histories (k : kind) (I : N -> wst -> Prop) (P : wst -> op -> Prop) :
   (forall c w o, I c w -> applicable k o -> P w o ->
      wrap_spec (w_len w) c [(o, fst (step k o w))] /\
-     I (spec_cursor c [(o, fst (step k o w))]) (snd (step k o w)) /\
+     I (spec_cursor (w_len w) c [(o, fst (step k o w))]) (snd (step k o w)) /\
      w_len (snd (step k o w)) = w_len w) ->
   forall ops c w, I c w -> Forall (applicable k) ops -> chain P k ops w ->
     wrap_spec (w_len w) c (trace k ops w) /\
-    I (spec_cursor c (trace k ops w)) (run_state k ops w) /\
+    I (spec_cursor (w_len w) c (trace k ops w)) (run_state k ops w) /\
     w_len (run_state k ops w) = w_len w.
 Proof.
   intros Hstep. induction ops as [|o ops IH]; intros c w Hi Hap Hch.
@@ -152,7 +152,7 @@ Proof.
     destruct (Hstep c w o Hi Ho Hp) as (S1 & S2 & S3).
     cbn [trace run_state]. destruct (step k o w) as [r w'] eqn:E. cbn [fst snd] in *.
     destruct (IH _ _ S2 Hap' Hch) as (T1 & T2 & T3).
-    rewrite wrap_spec_cons, (spec_cursor_cons c o r (trace k ops w')). rewrite S3 in T1.
+    rewrite wrap_spec_cons, (spec_cursor_cons (w_len w) c o r (trace k ops w')). rewrite S3 in T1, T2.
     split; [split; [exact S1 | exact T1]|]. split; [exact T2|]. rewrite T3. exact S3.
 Qed.
 
@@ -221,15 +221,33 @@ Proof.
   split; [split; assumption | exact Hp].
 Qed.
 
+(* ---- seeks that OSeek cannot express: negative offsets, CURRENT/END origins *)
+
+Lemma buf_seek_z_neg p b : (p < 0)%Z -> buf_seek_z p b = (false, b).
+Proof.
+  intro H. unfold buf_seek_z. replace (p <? 0)%Z with true by (symmetry; apply Z.ltb_lt; exact H). reflexivity.
+Qed.
+
+Lemma with_buf_same w : with_buf w (w_buf w) = w.
+Proof. destruct w; reflexivity. Qed.
+
+Lemma seekx_unmoved z wh w :
+  wh <> 0 \/ (z < 0)%Z ->
+  (if wh =? 0 then with_buf w (snd (buf_seek_z z (w_buf w))) else w) = w.
+Proof.
+  intro H. destruct (wh =? 0) eqn:E; [|reflexivity]. apply N.eqb_eq in E.
+  destruct H as [H|H]; [congruence|]. rewrite (buf_seek_z_neg z _ H). apply with_buf_same.
+Qed.
+
 Definition bio_inv (c : N) (w : wst) : Prop := winv w /\ c = b_pos (w_buf w).
 
 Lemma bio_step_ok c w o :
   bio_inv c w -> applicable KBio o -> True ->
   wrap_spec (w_len w) c [(o, fst (step KBio o w))] /\
-  bio_inv (spec_cursor c [(o, fst (step KBio o w))]) (snd (step KBio o w)) /\
+  bio_inv (spec_cursor (w_len w) c [(o, fst (step KBio o w))]) (snd (step KBio o w)) /\
   w_len (snd (step KBio o w)) = w_len w.
 Proof.
-  intros [Hw ->] Ho _. destruct o as [d|n|n|p st|v|n cap]; try (simpl in Ho; contradiction).
+  intros [Hw ->] Ho _. destruct o as [d|n|n|p st|z wh|v|n cap]; try (simpl in Ho; contradiction).
   - (* seek *)
     cbn [step]. pose proof (bio_seek_spec p st w Hw) as S.
     destruct (bio_seek p st w) as [r w']. destruct S as (Hw' & Hr & Hl & Hcase).
@@ -238,6 +256,10 @@ Proof.
     destruct (r =? seek_target (b_pos (w_buf w)) p st) eqn:E; [exact Hr|].
     destruct Hcase as [[-> ->] | ->]; [|reflexivity].
     simpl in E. rewrite N.eqb_refl in E. discriminate.
+  - (* negative offset or CURRENT/END origin: nothing moves, the unchanged position is returned *)
+    cbn [step]. simpl in Ho. rewrite (seekx_unmoved z wh w Ho).
+    cbn [fst snd wrap_spec spec_cursor]. split; [exact I|]. split; [|reflexivity].
+    split; [exact Hw|]. destruct (Z.of_N (b_pos (w_buf w)) =? _)%Z; reflexivity.
   - (* protect *)
     cbn [step]. destruct (buf_protect v (w_buf w)) as [b'|] eqn:E; cbn [fst snd wrap_spec spec_cursor].
     + destruct (protect_wrap v w b' Hw E) as [Hw' Hp].
@@ -254,10 +276,10 @@ Qed.
 Lemma sio_step_ok c w o :
   bio_inv c w -> applicable KSio o -> True ->
   wrap_spec (w_len w) c [(o, fst (step KSio o w))] /\
-  bio_inv (spec_cursor c [(o, fst (step KSio o w))]) (snd (step KSio o w)) /\
+  bio_inv (spec_cursor (w_len w) c [(o, fst (step KSio o w))]) (snd (step KSio o w)) /\
   w_len (snd (step KSio o w)) = w_len w.
 Proof.
-  intros [Hw ->] Ho _. destruct o as [d|n|n|p st|v|n cap]; try (simpl in Ho; contradiction).
+  intros [Hw ->] Ho _. destruct o as [d|n|n|p st|z wh|v|n cap]; try (simpl in Ho; contradiction).
   - cbn [step]. pose proof (bio_seek_spec p st w Hw) as S.
     destruct (bio_seek p st w) as [r w']. destruct S as (Hw' & Hr & Hl & Hcase).
     cbn [fst snd].
@@ -267,6 +289,18 @@ Proof.
     + split; [exact I|]. split; [|exact Hl]. split; [exact Hw'|].
       destruct Hcase as [[-> ->] | ->]; [|reflexivity].
       rewrite N.eqb_refl in E. discriminate.
+  - (* negative offset (START) or CURRENT origin *)
+    cbn [step]. simpl in Ho. destruct Ho as [-> | [-> Hneg]].
+    + (* CURRENT: reader.seek(offset, 1) does not move; success only for offset 0 *)
+      cbn [N.eqb Pos.eqb fst snd].
+      destruct (Z.of_N (b_pos (w_buf w)) =? z + Z.of_N (b_pos (w_buf w)))%Z eqn:E;
+        cbn [wrap_spec spec_cursor]; unfold seek_target_z; cbn [N.eqb Pos.eqb].
+      * apply Z.eqb_eq in E. assert (z = 0%Z) by lia. subst z. rewrite Z.add_0_r, N2Z.id.
+        split; [split; [lia | exact I]|]. split; [|reflexivity]. split; [exact Hw | reflexivity].
+      * split; [exact I|]. split; [|reflexivity]. split; [exact Hw | reflexivity].
+    + cbn [N.eqb]. rewrite (buf_seek_z_neg z _ Hneg). cbn [snd]. rewrite with_buf_same. cbn [fst snd].
+      replace (Z.of_N (b_pos (w_buf w)) =? z)%Z with false by (symmetry; apply Z.eqb_neq; lia).
+      cbn [wrap_spec spec_cursor]. split; [exact I|]. split; [|reflexivity]. split; [exact Hw | reflexivity].
   - cbn [step]. destruct (buf_protect v (w_buf w)) as [b'|] eqn:E; cbn [fst snd wrap_spec spec_cursor].
     + destruct (protect_wrap v w b' Hw E) as [Hw' Hp].
       split; [exact I|]. split; [|reflexivity]. split; [exact Hw'|]. cbn [with_buf w_buf]. auto.
@@ -357,13 +391,14 @@ Proof.
     destruct num as [[|q]|]; [congruence| exact G | exact G].
 Qed.
 
-Definition sync_cond (w : wst) (o : op) : Prop :=
+Definition sync_cond (k : kind) (w : wst) (o : op) : Prop :=
   match o with
   | OSeek p true => fst (buf_seek p (w_buf w)) = true -> synced w = true
+  | OSeekX p wh => match k with KSsw => synced w = true | _ => True end
   | _ => True
   end.
 
-Lemma chain_sync k ops w : seeks_in_sync k ops w <-> chain sync_cond k ops w.
+Lemma chain_sync k ops w : seeks_in_sync k ops w <-> chain (sync_cond k) k ops w.
 Proof.
   revert w; induction ops as [|o t IH]; intro w; simpl; [tauto|].
   rewrite IH. unfold sync_cond. tauto.
@@ -378,8 +413,8 @@ Proof.
   split; [|exact E]. split; [|exact Hc]. rewrite E. exact Hb.
 Qed.
 
-Lemma srw_seek_spec c p w :
-  sinv c w -> sync_cond w (OSeek p true) ->
+Lemma srw_seek_spec k c p w :
+  sinv c w -> sync_cond k w (OSeek p true) ->
   let '(r, w') := srw_seek p true w in
   w_len w' = w_len w /\
   ((r = true /\ sinv p w' /\ b_pos (w_buf w') = p /\ winv w') \/ (r = false /\ w' = w)).
@@ -408,17 +443,22 @@ Proof.
 Qed.
 
 Lemma srw_step_ok c w o :
-  sinv c w -> applicable KSrw o -> sync_cond w o ->
+  sinv c w -> applicable KSrw o -> sync_cond KSrw w o ->
   wrap_spec (w_len w) c [(o, fst (step KSrw o w))] /\
-  sinv (spec_cursor c [(o, fst (step KSrw o w))]) (snd (step KSrw o w)) /\
+  sinv (spec_cursor (w_len w) c [(o, fst (step KSrw o w))]) (snd (step KSrw o w)) /\
   w_len (snd (step KSrw o w)) = w_len w.
 Proof.
-  intros Hs Ho Hsync. destruct o as [d|n|n|p st|v|n cap]; try (simpl in Ho; contradiction).
+  intros Hs Ho Hsync. destruct o as [d|n|n|p st|z wh|v|n cap]; try (simpl in Ho; contradiction).
   - (* seek *)
     cbn [step]. destruct st.
-    + pose proof (srw_seek_spec c p w Hs Hsync) as S. destruct (srw_seek p true w) as [r w'].
+    + pose proof (srw_seek_spec _ c p w Hs Hsync) as S. destruct (srw_seek p true w) as [r w'].
       destruct S as (Hl & [(-> & Hs' & _) | (-> & ->)]); cbn [fst snd wrap_spec spec_cursor seek_target]; auto.
     + cbn [srw_seek fst snd wrap_spec spec_cursor]. auto.
+  - (* negative offset or CURRENT origin: False, nothing moves *)
+    cbn [step]. simpl in Ho. destruct Ho as [-> | [-> Hneg]].
+    + cbn [N.eqb Pos.eqb fst snd wrap_spec spec_cursor]. split; [exact I|]. split; [exact Hs | reflexivity].
+    + cbn [N.eqb]. rewrite (buf_seek_z_neg z _ Hneg). rewrite with_buf_same.
+      cbn [fst snd wrap_spec spec_cursor]. split; [exact I|]. split; [exact Hs | reflexivity].
   - (* protect *)
     cbn [step]. destruct (buf_protect v (w_buf w)) as [b'|] eqn:E; cbn [fst snd wrap_spec spec_cursor].
     + pose proof (srw_protect c v w b' Hs E) as Hs'. split; [exact I|]. split; [exact Hs' | reflexivity].
@@ -431,15 +471,15 @@ Qed.
 
 (* StreamableSourceWrapper over StreamReaderWrapper: io-style seek result *)
 Lemma ssw_step_ok c w o :
-  sinv c w -> applicable KSsw o -> sync_cond w o ->
+  sinv c w -> applicable KSsw o -> sync_cond KSsw w o ->
   wrap_spec (w_len w) c [(o, fst (step KSsw o w))] /\
-  sinv (spec_cursor c [(o, fst (step KSsw o w))]) (snd (step KSsw o w)) /\
+  sinv (spec_cursor (w_len w) c [(o, fst (step KSsw o w))]) (snd (step KSsw o w)) /\
   w_len (snd (step KSsw o w)) = w_len w.
 Proof.
-  intros Hs Ho Hsync. destruct o as [d|n|n|p st|v|n cap]; try (simpl in Ho; contradiction).
+  intros Hs Ho Hsync. destruct o as [d|n|n|p st|z wh|v|n cap]; try (simpl in Ho; contradiction).
   - (* seek *)
     cbn [step]. destruct st.
-    + pose proof (srw_seek_spec c p w Hs Hsync) as S. destruct (srw_seek p true w) as [r w'] eqn:Esk.
+    + pose proof (srw_seek_spec _ c p w Hs Hsync) as S. destruct (srw_seek p true w) as [r w'] eqn:Esk.
       destruct S as (Hl & [(-> & Hs' & Hp & _) | (-> & ->)]); cbn [fst snd wrap_spec spec_cursor seek_target].
       * rewrite Hp, N.eqb_refl. auto.
       * split; [exact I|]. split; [|reflexivity].
@@ -455,6 +495,12 @@ Proof.
       * split; [exact Hc|]. left. split; [exact Hw | reflexivity].
       * assert (X : b_pos (w_buf w) = w_cur w) by lia.
         split; [exact Hc|]. right. split; [exact Hb|]. split; [exact Hby|]. split; [exact Hp | exact X].
+  - (* negative offset or CURRENT/END origin: nothing moves; the position is returned, which is the
+       true offset because the wrapper is in sync *)
+    cbn [step]. simpl in Ho. rewrite (seekx_unmoved z wh w Ho). simpl in Hsync.
+    destruct (sinv_synced c w Hs Hsync) as [Hw ->].
+    cbn [fst snd wrap_spec spec_cursor]. split; [exact I|]. split; [|reflexivity].
+    destruct (Z.of_N (b_pos (w_buf w)) =? _)%Z; exact Hs.
   - cbn [step]. destruct (buf_protect v (w_buf w)) as [b'|] eqn:E; cbn [fst snd wrap_spec spec_cursor].
     + pose proof (srw_protect c v w b' Hs E) as Hs'. split; [exact I|]. split; [exact Hs' | reflexivity].
     + split; [exact I|]. split; [exact Hs | reflexivity].
@@ -547,7 +593,7 @@ Lemma ice_step_ok block o w :
   winv w' /\ w_len w' = w_len w /\
   match iop_op o with
   | Some o' => wrap_spec (w_len w) (b_pos (w_buf w)) [(o', r)] /\
-               b_pos (w_buf w') = spec_cursor (b_pos (w_buf w)) [(o', r)]
+               b_pos (w_buf w') = spec_cursor (w_len w) (b_pos (w_buf w)) [(o', r)]
   | None => b_pos (w_buf w') = b_pos (w_buf w)
   end.
 Proof.
@@ -582,7 +628,7 @@ Lemma ice_histories block : forall ops w,
   winv w -> chunks_within block ops ->
   wrap_spec (w_len w) (b_pos (w_buf w)) (ice_trace block ops w) /\
   winv (ice_state block ops w) /\
-  b_pos (w_buf (ice_state block ops w)) = spec_cursor (b_pos (w_buf w)) (ice_trace block ops w).
+  b_pos (w_buf (ice_state block ops w)) = spec_cursor (w_len w) (b_pos (w_buf w)) (ice_trace block ops w).
 Proof.
   induction ops as [|o ops IH]; intros w Hw Hch; [simpl; auto|].
   assert (Hc : forall c, o = IDownload c -> c <= block).
@@ -593,11 +639,11 @@ Proof.
   cbn [ice_trace ice_state]. destruct (ice_step block o w) as [r w'] eqn:E. cbn [snd].
   destruct S as (Hw' & Hl & Hm). destruct (IH w' Hw' Hch') as (T1 & T2 & T3).
   destruct (iop_op o) as [o'|].
-  - destruct Hm as [M1 M2]. rewrite wrap_spec_cons, (spec_cursor_cons _ o' r).
-    rewrite Hl, M2 in T1. rewrite M2 in T3.
+  - destruct Hm as [M1 M2]. rewrite wrap_spec_cons, (spec_cursor_cons _ _ o' r).
+    rewrite Hl, M2 in T1. rewrite Hl, M2 in T3.
     split; [split; [exact M1 | exact T1]|]. split; [exact T2 |].
-    rewrite (spec_cursor_cons _ o' r). exact T3.
-  - rewrite Hl, Hm in T1. rewrite Hm in T3. split; [exact T1|]. split; [exact T2 | exact T3].
+    rewrite (spec_cursor_cons _ _ o' r). exact T3.
+  - rewrite Hl, Hm in T1. rewrite Hl, Hm in T3. split; [exact T1|]. split; [exact T2 | exact T3].
 Qed.
 
 (* ---------------------------------------------------------------- nothing is lost (state form) *)
